@@ -1,6 +1,7 @@
 package main
 
 import (
+	"go/token"
 	"strings"
 
 	"golang.org/x/tools/go/ssa"
@@ -133,34 +134,34 @@ func c12Release(a *An, tf *tableFacts, root *ssa.Function) {
 				}
 			}
 		}
-		// (ii) descriptor handed to the caller in the returned slice, caller releases each element
+		// (ii) the descriptor is put into a slice (under the delete's condition) whose elements all reach inotify_rm_watch:
+		// through returns to callers, arguments to helpers, appends and phis
 		if !ok {
-			fn := op.V.Instr.Parent()
-			if handed, hw := keyReturnedInSlice(op); handed {
-				// follow the slice up the calling chain: a caller either releases its elements or returns it further
-				for c := op.V.Ctx; c != nil && c.Parent != nil && !ok; c = c.Parent {
-					if c.Fn != fn && !returnsCallResult(c.Fn) {
-						break
-					}
-					call, isCall := c.Site.(*ssa.Call)
-					if !isCall {
-						break
-					}
-					callPath := stripIDs(c.Parent.path(call))
+			conts, hw, handed := keyContainers(w, op)
+			if handed {
+				// every slice the key can be in must have its elements released
+				all := true
+				for _, ct := range conts {
+					elems := sliceElements([]cv{ct})
+					one := false
 					for _, rm := range rms {
 						rcall := rm.Instr.(*ssa.Call)
-						ap := stripIDs(rm.Ctx.path(rcall.Call.Args[1]))
-						if strings.HasPrefix(ap, callPath+"#0[") || strings.HasPrefix(ap, callPath+"[") {
-							ok, how = true, hw+"; "+shortFn(rm.Ctx.Fn)+" calls inotify_rm_watch on every element at "+a.P.instrPos(rcall)
+						rv, rc := rm.Ctx.resolve(stripConv(rcall.Call.Args[1]))
+						if elems[cv{rc, stripConv(rv)}] {
+							one = true
+							how = hw + "; " + shortFn(rm.Ctx.Fn) + " calls inotify_rm_watch on every element at " + a.P.instrPos(rcall)
 						}
 					}
-					if !ok && !returnsCallResult(c.Parent.Fn) {
-						break
+					if !one {
+						all = false
 					}
 				}
+				ok = all
 				if !ok {
-					how = hw + ", but no caller releases the elements of that slice"
+					how = hw + ", but the elements of that slice do not all reach inotify_rm_watch"
 				}
+			} else if hw != "" {
+				how = hw
 			}
 		}
 		if how == "" {
@@ -186,13 +187,10 @@ func c12Release(a *An, tf *tableFacts, root *ssa.Function) {
 			if op.Key == ap && op.V.Seq < rm.Seq {
 				ok, how = true, "entry deleted at "+a.P.instrPos(op.V.Instr)
 			}
-			if handed, _ := keyReturnedInSlice(op); handed {
-				for c := op.V.Ctx; c != nil && c.Parent != nil; c = c.Parent {
-					if c.Fn == op.V.Instr.Parent() {
-						if cs, isCall := c.Site.(*ssa.Call); isCall && strings.HasPrefix(ap, stripIDs(c.Parent.path(cs))+"#0[") {
-							ok, how = true, "element of the slice of removed descriptors returned by "+shortFn(c.Fn)
-						}
-					}
+			if conts, _, handed := keyContainers(w, op); handed && !ok {
+				rv, rc := rm.Ctx.resolve(stripConv(call.Call.Args[1]))
+				if sliceElements(conts)[cv{rc, stripConv(rv)}] {
+					ok, how = true, "element of a slice of removed descriptors (entry deleted at "+a.P.instrPos(op.V.Instr)+")"
 				}
 			}
 		}
@@ -203,79 +201,172 @@ func c12Release(a *An, tf *tableFacts, root *ssa.Function) {
 	}
 }
 
-// returnsCallResult: some return of fn yields (a result of) a call made in fn, i.e. fn hands a callee's value on.
-func returnsCallResult(fn *ssa.Function) bool {
-	for _, b := range fn.Blocks {
-		r, ok := b.Instrs[len(b.Instrs)-1].(*ssa.Return)
+// cv is a value in a context.
+type cv struct {
+	c *Ctx
+	v ssa.Value
+}
+
+// keyContainers: the slices the deleted key value is placed into (slice literal, variadic append), under a condition
+// implied by the delete's.
+func keyContainers(w *Walker, op tableOp) ([]cv, string, bool) {
+	kv, kc := op.V.Ctx.resolve(stripConv(op.KeyV))
+	kv = stripConv(kv)
+	var out []cv
+	how := ""
+	var placed DNF // the paths on which the key is put into some slice
+	for _, v := range w.Visits {
+		st, ok := v.Instr.(*ssa.Store)
 		if !ok {
 			continue
 		}
-		for _, res := range r.Results {
-			v := res
-			if u, ok := v.(*ssa.UnOp); ok {
-				if al, ok := u.X.(*ssa.Alloc); ok {
-					// defer-spilled result: look at the stores
-					for _, st := range cellStores(al) {
-						if isCallValue(st.Val) {
-							return true
+		ia, ok := st.Addr.(*ssa.IndexAddr)
+		if !ok {
+			continue
+		}
+		al, ok := ia.X.(*ssa.Alloc)
+		if !ok {
+			continue
+		}
+		sv, sc := v.Ctx.resolve(stripConv(st.Val))
+		if stripConv(sv) != kv || sc != kc {
+			continue
+		}
+		placed = placed.or(v.Cond)
+		if refs := al.Referrers(); refs != nil {
+			for _, r := range *refs {
+				if sl, ok := r.(*ssa.Slice); ok && sl.X == ssa.Value(al) {
+					out = append(out, cv{v.Ctx, sl})
+					how = "the descriptor is put into a slice in " + shortFn(v.Ctx.Fn)
+				}
+			}
+		}
+	}
+	if len(out) == 0 {
+		return nil, "", false
+	}
+	if h, ctr, err := implies(op.V.Cond, placed); err != nil || !h {
+		// placed into a slice only on some of the paths that delete the entry
+		return nil, "the descriptor is put into a slice, but not when " + stripIDs(ctr), false
+	}
+	return out, how, true
+}
+
+// sliceElements follows slices forward (append, phi, local variable cells, reslicing, returns to the calling context,
+// arguments of inlined helpers) and returns the values read from their elements.
+func sliceElements(start []cv) map[cv]bool {
+	elems := map[cv]bool{}
+	seen := map[cv]bool{}
+	work := append([]cv(nil), start...)
+	push := func(c *Ctx, v ssa.Value) {
+		x := cv{c, v}
+		if !seen[x] {
+			seen[x] = true
+			work = append(work, x)
+		}
+	}
+	for _, s := range start {
+		seen[s] = true
+	}
+	for len(work) > 0 && len(seen) < 4000 {
+		cur := work[0]
+		work = work[1:]
+		refs := cur.v.Referrers()
+		if refs == nil {
+			continue
+		}
+		for _, r := range *refs {
+			switch x := r.(type) {
+			case *ssa.Phi:
+				push(cur.c, x)
+			case *ssa.Slice:
+				if x.X == cur.v {
+					push(cur.c, x)
+				}
+			case *ssa.ChangeType:
+				push(cur.c, x)
+			case *ssa.Convert:
+				push(cur.c, x)
+			case *ssa.Store:
+				if x.Val == cur.v {
+					if al, ok := x.Addr.(*ssa.Alloc); ok {
+						if lr := al.Referrers(); lr != nil {
+							for _, u := range *lr {
+								if ld, ok := u.(*ssa.UnOp); ok && ld.Op == token.MUL {
+									push(cur.c, ld)
+								}
+							}
+						}
+					}
+				}
+			case *ssa.IndexAddr:
+				if x.X == cur.v {
+					if lr := x.Referrers(); lr != nil {
+						for _, u := range *lr {
+							if ld, ok := u.(*ssa.UnOp); ok && ld.Op == token.MUL {
+								elems[cv{cur.c, ld}] = true
+							}
+						}
+					}
+				}
+			case *ssa.Index:
+				if x.X == cur.v {
+					elems[cv{cur.c, x}] = true
+				}
+			case *ssa.Range:
+				if lr := x.Referrers(); lr != nil {
+					for _, u := range *lr {
+						if nx, ok := u.(*ssa.Next); ok {
+							if nr := nx.Referrers(); nr != nil {
+								for _, e := range *nr {
+									if ex, ok := e.(*ssa.Extract); ok && ex.Index == 2 {
+										elems[cv{cur.c, ex}] = true
+									}
+								}
+							}
+						}
+					}
+				}
+			case *ssa.Return:
+				if cur.c.Parent == nil {
+					continue
+				}
+				call, ok := cur.c.Site.(*ssa.Call)
+				if !ok {
+					continue
+				}
+				for j, res := range x.Results {
+					if res != cur.v {
+						continue
+					}
+					if len(x.Results) == 1 {
+						push(cur.c.Parent, call)
+					} else if cr := call.Referrers(); cr != nil {
+						for _, u := range *cr {
+							if ex, ok := u.(*ssa.Extract); ok && ex.Index == j {
+								push(cur.c.Parent, ex)
+							}
+						}
+					}
+				}
+			case *ssa.Call:
+				if bi, ok := x.Call.Value.(*ssa.Builtin); ok {
+					if bi.Name() == "append" {
+						push(cur.c, x)
+					}
+					continue
+				}
+				if k := cur.c.calleeCtx(x, &x.Call); k != nil {
+					for i, arg := range x.Call.Args {
+						if arg == cur.v && i < len(k.Fn.Params) {
+							push(k, k.Fn.Params[i])
 						}
 					}
 				}
 			}
-			if isCallValue(v) {
-				return true
-			}
-			if ph, ok := v.(*ssa.Phi); ok {
-				for _, e := range ph.Edges {
-					if isCallValue(e) {
-						return true
-					}
-				}
-			}
 		}
 	}
-	return false
-}
-
-func isCallValue(v ssa.Value) bool {
-	switch x := v.(type) {
-	case *ssa.Call:
-		return true
-	case *ssa.Extract:
-		_, ok := x.Tuple.(*ssa.Call)
-		return ok
-	}
-	return false
-}
-
-// keyReturnedInSlice: the deleted key value is appended to / placed in a slice in the same function, under a condition
-// implied by the delete's, and the function returns a slice of that type.
-func keyReturnedInSlice(op tableOp) (bool, string) {
-	fn := op.V.Instr.Parent()
-	res := fn.Signature.Results()
-	if res.Len() == 0 {
-		return false, ""
-	}
-	key := stripConv(op.KeyV)
-	// stores of key into an array element that is sliced (slice literal / variadic append)
-	refs := key.Referrers()
-	if refs == nil {
-		return false, ""
-	}
-	for _, r := range *refs {
-		st, ok := r.(*ssa.Store)
-		if !ok || stripConv(st.Val) != key {
-			continue
-		}
-		if _, ok := st.Addr.(*ssa.IndexAddr); !ok {
-			continue
-		}
-		// same block as the delete or dominated by it: executed whenever the delete is, unless an exit intervenes
-		if st.Block() == op.V.Instr.Block() || op.V.Instr.Block().Dominates(st.Block()) || st.Block().Dominates(op.V.Instr.Block()) {
-			return true, "the descriptor is put into the slice " + shortFn(fn) + " returns"
-		}
-	}
-	return false, ""
+	return elems
 }
 
 // c12PathStores: a store to the path field of an existing entry must move its path-table key.
